@@ -64,8 +64,20 @@ def _literalish(node: ast.AST) -> bool:
     return False
 
 
+def _is_children(expr: ast.AST) -> bool:
+    """`x.children`: in this package only ete3 tree nodes carry that attribute, and `x.is_leaf()` is defined as
+    `len(x.children) == 0`"""
+    return isinstance(expr, ast.Attribute) and expr.attr == "children" and isinstance(expr.ctx, ast.Load)
+
+
+def _is_leaf_call(children: ast.Attribute) -> ast.AST:
+    return ast.copy_location(ast.Call(func=ast.copy_location(ast.Attribute(value=children.value, attr="is_leaf", ctx=ast.Load()), children), args=[], keywords=[]), children)
+
+
 def _not(expr: ast.AST) -> ast.AST:
     """canonical negation of an expression that is only looked at for its truth value (or is a bool already)"""
+    if _is_children(expr):
+        return _is_leaf_call(expr)  # `not x.children` is `x.is_leaf()`
     if isinstance(expr, ast.UnaryOp) and isinstance(expr.op, ast.Not):
         return _truth_form(expr.operand)
     if isinstance(expr, ast.Compare) and len(expr.ops) == 1 and type(expr.ops[0]) in NEGATE:
@@ -83,7 +95,13 @@ def _truth_form(expr: ast.AST) -> ast.AST:
         return _not(expr.operand)
     if isinstance(expr, ast.BoolOp):
         return ast.copy_location(ast.BoolOp(op=expr.op, values=[_truth_form(v) for v in expr.values]), expr)
+    if _is_children(expr):
+        return ast.copy_location(ast.UnaryOp(op=ast.Not(), operand=_is_leaf_call(expr)), expr)
     return expr
+
+
+def _call_free(node: ast.AST) -> bool:
+    return not any(isinstance(x, (ast.Call, ast.Await, ast.Yield, ast.YieldFrom, ast.NamedExpr)) for x in ast.walk(node))
 
 
 def _all_negative(test: ast.AST) -> bool:
@@ -154,6 +172,13 @@ class Canon(ast.NodeTransformer):
             return node
         op = node.ops[0]
         left, right = node.left, node.comparators[0]
+        if (isinstance(left, ast.Call) and isinstance(left.func, ast.Name) and left.func.id == "len" and len(left.args) == 1 and _is_children(left.args[0])
+                and isinstance(right, ast.Constant) and right.value == 0 and not isinstance(right.value, bool)):
+            # `len(x.children) == 0` is the body of ete3's is_leaf()
+            if isinstance(op, ast.Eq):
+                return _is_leaf_call(left.args[0])
+            if isinstance(op, (ast.NotEq, ast.Gt)):
+                return ast.copy_location(ast.UnaryOp(op=ast.Not(), operand=_is_leaf_call(left.args[0])), node)
         if isinstance(op, (ast.Lt, ast.LtE, ast.Gt, ast.GtE)):
             mirror = {ast.Lt: ast.Gt, ast.LtE: ast.GtE, ast.Gt: ast.Lt, ast.GtE: ast.LtE}[type(op)]
             if _literalish(left) != _literalish(right):
@@ -172,6 +197,8 @@ class Canon(ast.NodeTransformer):
         node = self.generic_visit(node)
         if isinstance(node.op, ast.Not):
             inner = node.operand
+            if _is_children(inner):
+                return _is_leaf_call(inner)
             if isinstance(inner, ast.Compare) and len(inner.ops) == 1 and type(inner.ops[0]) in NEGATE:
                 return ast.copy_location(ast.Compare(left=inner.left, ops=[NEGATE[type(inner.ops[0])]()], comparators=inner.comparators), node)
             if isinstance(inner, ast.UnaryOp) and isinstance(inner.op, ast.Not) and isinstance(inner.operand, (ast.Compare, ast.BoolOp)):
@@ -203,8 +230,33 @@ class Canon(ast.NodeTransformer):
         node.test = _truth_form(node.test)
         pos = _positive(node.test)
         if pos is not None:
-            return ast.copy_location(ast.IfExp(test=pos, body=node.orelse, orelse=node.body), node)
+            node = ast.copy_location(ast.IfExp(test=pos, body=node.orelse, orelse=node.body), node)
+        chosen = self._min_max(node.test, node.body, node.orelse)
+        if chosen is not None:
+            return ast.copy_location(chosen, node)
         return node
+
+    def _min_max(self, test: ast.AST, body: ast.AST, orelse: ast.AST) -> Optional[ast.AST]:
+        """`x if x <= y else y` is min(x, y), `y if x <= y else x` is max(y, x) (ties resolved as the builtin does:
+        the first argument wins); the operands must not contain calls, they are evaluated twice in the spelled form"""
+        if not (isinstance(test, ast.Compare) and len(test.ops) == 1 and isinstance(test.ops[0], (ast.Lt, ast.LtE))):
+            return None
+        if "min" in self.shadowed or "max" in self.shadowed:
+            return None
+        x, y = test.left, test.comparators[0]
+        if not (_call_free(x) and _call_free(y)):
+            return None
+        dx, dy, db, do = ast.dump(x), ast.dump(y), ast.dump(body), ast.dump(orelse)
+        if dx == dy:
+            return None
+        strict = isinstance(test.ops[0], ast.Lt)
+        if db == dx and do == dy:  # the smaller one
+            name, args = "min", ([y, x] if strict else [x, y])
+        elif db == dy and do == dx:  # the larger one
+            name, args = "max", ([x, y] if strict else [y, x])
+        else:
+            return None
+        return ast.Call(func=ast.Name(id=name, ctx=ast.Load()), args=args, keywords=[])
 
     def visit_Call(self, node: ast.Call):
         node = self.generic_visit(node)
@@ -212,6 +264,10 @@ class Canon(ast.NodeTransformer):
         if isinstance(node.func, ast.Name) and node.func.id in ("dict", "list", "tuple") and node.func.id not in self.shadowed and not node.args and not node.keywords:
             empty = {"dict": ast.Dict(keys=[], values=[]), "list": ast.List(elts=[], ctx=ast.Load()), "tuple": ast.Tuple(elts=[], ctx=ast.Load())}[node.func.id]
             return ast.copy_location(empty, node)
+        # min([a, b]) / max((a, b)) over a display of two or more items is min(a, b)
+        if (isinstance(node.func, ast.Name) and node.func.id in ("min", "max") and node.func.id not in self.shadowed and len(node.args) == 1 and not node.keywords
+                and isinstance(node.args[0], (ast.List, ast.Tuple)) and len(node.args[0].elts) >= 2 and not any(isinstance(e, ast.Starred) for e in node.args[0].elts)):
+            return ast.copy_location(ast.Call(func=node.func, args=list(node.args[0].elts), keywords=[]), node)
         # set(x for ..) / list(x for ..) / dict((k, v) for ..) are the comprehension displays
         if isinstance(node.func, ast.Name) and node.func.id in ("set", "list", "dict") and node.func.id not in self.shadowed and len(node.args) == 1 and not node.keywords and isinstance(node.args[0], ast.GeneratorExp):
             gen = node.args[0]
@@ -241,6 +297,13 @@ class Canon(ast.NodeTransformer):
     def visit_If(self, node: ast.If):
         node = self.generic_visit(node)
         node.test = _truth_form(node.test)
+        if not node.orelse and len(node.body) == 1 and isinstance(node.body[0], ast.Assign) and len(node.body[0].targets) == 1 and isinstance(node.body[0].targets[0], ast.Name):
+            # `if e < v: v = e` keeps the running minimum: `v = min(v, e)`
+            target, value = node.body[0].targets[0], node.body[0].value
+            keep = ast.copy_location(ast.Name(id=target.id, ctx=ast.Load()), target)
+            chosen = self._min_max(node.test, value, keep)
+            if chosen is not None and isinstance(node.test, ast.Compare) and {ast.dump(node.test.left), ast.dump(node.test.comparators[0])} == {ast.dump(value), ast.dump(keep)}:
+                return ast.copy_location(ast.Assign(targets=[target], value=chosen), node)
         if node.orelse:
             jump = lambda blk: len(blk) == 1 and isinstance(blk[0], (ast.Continue, ast.Break))  # noqa: E731
             leave = lambda blk: len(blk) == 1 and isinstance(blk[0], (ast.Continue, ast.Break, ast.Return, ast.Raise))  # noqa: E731
@@ -264,6 +327,7 @@ class Canon(ast.NodeTransformer):
         node = self.generic_visit(node)
         self.numeric.pop()
         _inline_return_locals(node)
+        _inline_single_use_defs(node)
         for a in node.args.posonlyargs + node.args.args + node.args.kwonlyargs:
             if a.annotation is not None and not isinstance(a.annotation, ast.Constant):
                 a.annotation = _canon_annotation(a.annotation)
@@ -312,6 +376,63 @@ class Canon(ast.NodeTransformer):
                 if isinstance(val.op, ast.Add) and isinstance(val.right, ast.Name) and val.right.id == name:
                     return ast.copy_location(ast.AugAssign(target=ast.Name(id=name, ctx=ast.Store()), op=val.op, value=val.left), node)
         return node
+
+
+def _inline_single_use_defs(fn: ast.AST) -> None:
+    """a nested `def f(args): return E` (no decorator, not a generator, not recursive) whose name is read exactly once,
+    by a later statement of the same block, and never rebound, is the lambda `lambda args: E` at that place"""
+
+    def blocks(node):
+        for fname in ("body", "orelse", "finalbody"):
+            blk = getattr(node, fname, None)
+            if isinstance(blk, list) and blk and isinstance(blk[0], ast.stmt):
+                yield blk
+        for h in getattr(node, "handlers", []) or []:
+            yield h.body
+
+    def walk_blocks(node):
+        for blk in blocks(node):
+            yield blk
+            for st in blk:
+                if not isinstance(st, (ast.FunctionDef, ast.AsyncFunctionDef, ast.ClassDef)):
+                    yield from walk_blocks(st)
+
+    for blk in list(walk_blocks(fn)):
+        i = 0
+        while i < len(blk):
+            st = blk[i]
+            i += 1
+            if not (isinstance(st, ast.FunctionDef) and not st.decorator_list):
+                continue
+            body = st.body[1:] if st.body and isinstance(st.body[0], ast.Expr) and isinstance(st.body[0].value, ast.Constant) and isinstance(st.body[0].value.value, str) else st.body
+            if not (len(body) == 1 and isinstance(body[0], ast.Return) and body[0].value is not None):
+                continue
+            if any(isinstance(x, (ast.Yield, ast.YieldFrom, ast.Await)) for x in ast.walk(body[0])):
+                continue
+            if any(isinstance(x, ast.Name) and x.id == st.name for x in ast.walk(st)):
+                continue
+            uses = [x for x in ast.walk(fn) if isinstance(x, ast.Name) and x.id == st.name]
+            others = [x for x in ast.walk(fn) if x is not st and isinstance(x, (ast.FunctionDef, ast.AsyncFunctionDef, ast.ClassDef)) and x.name == st.name]
+            shared = any(isinstance(x, (ast.Global, ast.Nonlocal)) and st.name in x.names for x in ast.walk(fn))
+            if len(uses) != 1 or not isinstance(uses[0].ctx, ast.Load) or others or shared:
+                continue
+            use = uses[0]
+            later = [x for x in blk[i:] if any(y is use for y in ast.walk(x))]
+            if not later:
+                continue
+            holder = later[0]
+            args = st.args
+            for a in args.posonlyargs + args.args + args.kwonlyargs + ([args.vararg] if args.vararg else []) + ([args.kwarg] if args.kwarg else []):
+                a.annotation = None
+            lam = ast.copy_location(ast.Lambda(args=args, body=body[0].value), use)
+
+            class Put(ast.NodeTransformer):
+                def visit_Name(self, n):
+                    return lam if n is use else n
+
+            Put().visit(holder)
+            i -= 1
+            del blk[i]
 
 
 def _inline_return_locals(fn: ast.AST) -> None:
